@@ -28,4 +28,9 @@ theorem holds_cleanup_clients_all_dead (ms : List Managed) :
     ∀ o ∈ cleanupAll Facts.kill Facts.cleanupClients ms, o.returns = true ∧ o.procDead = true ∧ o.exitedFlag = true :=
   (cleanup_clients_all_dead _ facts_good _ cleanup_facts_good ms).1
 
+theorem holds_overlapping_kill_keeps_grace (proto : Proto) (lost closeAgainOk : Bool) :
+    (overlapped Facts.killOverlap Facts.kill proto .exitsFast lost true closeAgainOk).forced = false ∧
+    (overlapped Facts.killOverlap Facts.kill proto .exitsFast lost true closeAgainOk).cleanedUp = true :=
+  overlapping_kill_keeps_grace _ (by decide) _ facts_good proto lost closeAgainOk
+
 end GoPlugin.Instance.C04
